@@ -1285,7 +1285,7 @@ impl Channel {
         }
 
         // checked above
-        let (info2, sigs) = self.enforcement_state.next_holder_commit_info.take().unwrap();
+        let (info2, sigs) = self.enforcement_state.next_holder_commit_info.clone().unwrap();
         let incoming_payment_summary =
             self.enforcement_state.incoming_payments_summary(Some(&info2), None);
         let outgoing_payment_summary = self.enforcement_state.payments_summary(Some(&info2), None);
@@ -1296,6 +1296,20 @@ impl Channel {
         let delta =
             self.enforcement_state.claimable_balances(&*state, Some(&info2), None, &self.setup);
 
+        // The commitment was validated against the payment ledger as it was when the
+        // counterparty's signature arrived, and validating does not update the ledger.
+        // Another channel may have used the same invoice (or relied on the same incoming
+        // HTLC) since then, so check again before the commitment becomes the current one.
+        // Nothing has been changed yet: a refusal leaves the validated commitment pending.
+        state.validate_payments(
+            &self.id0,
+            &incoming_payment_summary,
+            &outgoing_payment_summary,
+            &delta,
+            validator.clone(),
+        )?;
+
+        self.enforcement_state.next_holder_commit_info = None;
         let (next_holder_commitment_point, maybe_old_secret) = self
             .advance_holder_commitment_state(
                 validator.clone(),
